@@ -224,6 +224,42 @@ pub fn first_schedule(input: &Value) -> Value {
 	out
 }
 
+/// op c06_cfg_schedule (C06): the real start-up (config::from_file + MainEventLoop::new: the renewal
+/// periods of every certificate are what the REAL configuration getters answer, whichever level of
+/// the file sets them), then the REAL `Certificate::schedule_renewal` of every certificate on the
+/// files the harness put on disk.  The clock is read just before each call (the judge needs the
+/// remaining life at the instant of the evaluation); the effective periods are reported, not judged.
+pub async fn c06_cfg_schedule(input: &Value) -> Value {
+	let path = input["path"].as_str().unwrap_or("");
+	let mel = match MainEventLoop::new(path, &[]).await {
+		Ok(m) => m,
+		Err(e) => return json!({"rejected": e.message}),
+	};
+	let mut ids: Vec<&String> = mel.certificates.keys().collect();
+	ids.sort();
+	let mut res = vec![];
+	for id in ids {
+		let cert = &mel.certificates[id];
+		let now = std::time::SystemTime::now()
+			.duration_since(std::time::UNIX_EPOCH)
+			.map(|d| d.as_secs())
+			.unwrap_or(0);
+		let mut o = match cert.schedule_renewal().await {
+			Ok(d) => json!({"ok_ns": d.as_nanos().to_string()}),
+			Err(e) => json!({"err": e.message}),
+		};
+		o["id"] = json!(id);
+		o["name"] = json!(cert.crt_name);
+		o["endpoint"] = json!(cert.endpoint_name);
+		o["now_unix"] = json!(now);
+		o["renew_delay_s"] = json!(cert.renew_delay.as_secs().to_string());
+		o["random_early_renew_s"] = json!(cert.random_early_renew.as_secs().to_string());
+		o["ids_norm"] = json!(cert.identifiers.iter().map(|i| i.value.clone()).collect::<Vec<String>>());
+		res.push(o);
+	}
+	json!({"loaded": {"schedules": res}})
+}
+
 // ---------------------------------------------------------------------------------------------
 // C12: concurrent attempts with traced locks
 
